@@ -234,7 +234,8 @@ def analyse(s, desc, res, args):
 def oracle(s, desc, args, res, arrival, exported, drops):
     """documented rules on ground truth -> expected uid multiset; user keys; legitimacy of -O drop removals"""
     fails = []
-    lim = dict(args.event_limit)
+    # what the COMMAND LINE asked for (not what the parser made of it: parsed values may carry state of earlier runs)
+    lim = dict(desc.get("limit") or {})
     skip, cnt = lim.get("skip", 0), lim.get("count", 1 << 60)
     ts_start, ts_end = lim.get("ts_start", 0.0), lim.get("ts_end", sys.float_info.max)
     inev = input_events(s)
@@ -263,7 +264,7 @@ def oracle(s, desc, args, res, arrival, exported, drops):
             continue
         a = {**(e.get("args") or {}), **(e.get("attr") or {})}
         top = {k: v for k, v in e.items() if k not in ("attr", "args", "name")}
-        if matches_filter(args.event_filter, t["name"], a, top):
+        if matches_filter(desc.get("filter") or "", t["name"], a, top):
             continue
         if prep_active and PREP_RE.search(t["name"]) and not args.keep_prep:
             continue
